@@ -22,6 +22,7 @@ from simcore.rng import Rng
 from sims import ih5store as A
 
 UB = 1024
+BY_NAME_KINDS = {"none", "remove", "drop_newest", "flip", "insert", "remove_byte", "truncate", "extend", "drop_manifest", "manifest_flip", "manifest_append", "manifest_edit", "manifest_older"}
 
 
 def expand_structural(n, mf, has_fork, fork_k, has_foreign):
@@ -406,12 +407,15 @@ class FilesetEngine:
             raise env.HarnessError(f"unknown mutation {k}")
         return order, exp, cls_override
 
-    def open_check(self, world, cls, d, order):
+    def open_check(self, world, cls, d, order, by_name=None):
         def fn():
             from pathlib import Path
 
             try:
-                obj = cls([Path(os.path.join(d, f)) for f in order], "r")
+                if by_name:
+                    obj = cls(os.path.join(d, "foo"), by_name)
+                else:
+                    obj = cls([Path(os.path.join(d, f)) for f in order], "r")
             except Exception as e:
                 return {"status": "raises", "exc": type(e).__name__, "msg": str(e)[:160]}
             try:
@@ -498,6 +502,27 @@ class FilesetEngine:
                     viol.append(self.v("wrong-view", m, f"valid set ({json.dumps(m)}) opens with a different tree: {out.get('errs') or V.diff_dumps(exp[1], out.get('dump') or {})}", case))
                     break
                 probes["accepted_as_expected"] = probes.get("accepted_as_expected", 0) + 1
+            # the same set opened by record name (file discovery instead of an explicit list)
+            if kind in BY_NAME_KINDS and order and all(f in info["files"] for f in order):
+                modes = ["r"] + (["a"] if exp[0] == "reject" else [])
+                stop = False
+                for md_ in modes:
+                    before = sorted(os.listdir(md))
+                    out2 = self.open_check(w, c, md, order, by_name=md_)
+                    faults["by_name:" + md_] = faults.get("by_name:" + md_, 0) + 1
+                    steps += 1
+                    if out2["status"] in ("hard-death", "timeout"):
+                        continue
+                    if exp[0] == "reject" and out2["status"] == "opens":
+                        viol.append(self.v("accepted-corrupt", dict(m, by_name=md_), f"mutation {json.dumps(m)}: opening the record by name with mode {md_!r} succeeds instead of raising (files afterwards: {sorted(os.listdir(md))}, before: {before})", case))
+                        stop = True
+                        break
+                    if exp[0] == "accept" and md_ == "r" and (out2["status"] != "opens" or out2.get("dump") != exp[1]):
+                        viol.append(self.v("rejected-valid" if out2["status"] != "opens" else "wrong-view", dict(m, by_name=md_), f"valid set ({json.dumps(m)}) opened by name: {out2.get('exc') or 'different tree'}", case))
+                        stop = True
+                        break
+                if stop:
+                    break
         shutil.rmtree(md, ignore_errors=True)
         layout = [n, info["mf"], fork is not None, foreign is not None]
         sig = hashlib.sha256(json.dumps([layout, [o["op"] for o in case["ops"]], len(muts)]).encode()).hexdigest()[:16]
